@@ -45,12 +45,15 @@ def run(tier):
         if not os.path.exists(p):
             raise core.ToolError(f"fixture missing: {p} (run ./setup.sh)")
     diff = big_diff(60)
+    bigdiff = big_diff(2500)          # its rendering is several times a pipe buffer
     fa, fb, fc = (os.path.join(work, n) for n in ("a.txt", "b.txt", "same.txt"))
     open(fa, "w").write("".join(f"line {i}\n" for i in range(200)))
     open(fb, "w").write("".join(f"line {i}{'!' if i % 7 == 0 else ''}\n" for i in range(200)))
     open(fc, "w").write(open(fa).read())
     grep_out = os.path.join(work, "grep.txt")
     open(grep_out, "w").write("".join(f"src/a.rs:{i}:let foo{i} = {i};\n" for i in range(1, 200)))
+    big_grep_out = os.path.join(work, "grep-big.txt")
+    open(big_grep_out, "w").write("".join(f"src/a.rs:{i}:let foo{i} = {i}; // {'x' * 40}\n" for i in range(1, 9000)))
 
     def command(sc, idx):
         """argv, stdin, env additions for a scenario."""
@@ -59,7 +62,12 @@ def run(tier):
         args = ["--no-gitconfig", "--width", "80"]
         stdin = b""
         if sc["mode"] == "stdin":
-            stdin = diff
+            stdin = bigdiff if sc["big"] else diff
+        elif sc["mode"] == "diff" and sc["how"] == "samepath":
+            missing = os.path.join(work, "does-not-exist")
+            args += [fa, fa] if sc["status"] == 0 else [missing, missing]
+        elif sc["mode"] == "diff" and sc["how"] == "badopt":
+            args += ["-@--no-such-differ-option", fa, fa]
         elif sc["mode"] == "diff":
             if sc["status"] == 0:
                 args += [fa, fc]
@@ -68,7 +76,7 @@ def run(tier):
             else:
                 args += [fa, os.path.join(work, "does-not-exist")]
         else:
-            env["STUB_OUT"] = grep_out
+            env["STUB_OUT"] = big_grep_out if sc["big"] else grep_out
             env["STUB_EXIT"] = str(sc["status"])
             args += ["git", "grep", "-n", "foo"]
         if sc["out"] == "pager":
@@ -83,6 +91,8 @@ def run(tier):
                 env["PAGER"] = sc["pagerval"]
             if sc["quit"] > 0:
                 env["PAGER_QUIT_AFTER"] = str(sc["quit"])
+                if sc["stay"]:
+                    env["PAGER_STAY_MS"] = "400"
             else:
                 env["PAGER_LINGER_MS"] = "150"
         else:
@@ -101,6 +111,8 @@ def run(tier):
         idx, sc = isc
         # diff/wrap with status >= 2 cannot be combined with a differ that really reports it except via missing file
         if sc["mode"] == "diff" and sc["status"] == 129:
+            return None
+        if sc["how"] == "badopt" and sc["status"] != 2:
             return None
         args, stdin, env = command(sc, idx)
         logf = env["PAGER_LOG"]
@@ -150,7 +162,8 @@ def run(tier):
         "evaluations": len(events), "distinct_nontrivial": len({json.dumps(e["sc"], sort_keys=True) for e in events}),
         "rule": "TLC enumerates the scenario space of MC_Pager (stdin mode: the consumer of stdout goes away at each of the first 40 "
                 "write calls; pager mode: every subset of the four pager sources x three PAGER values x quit after 0/1/10/5000 "
-                "bytes; two-file and wrapped-command mode: differ/child status 0, 1, 2, 129 x consumer stays / quits); each is forced "
+                "bytes; two-file and wrapped-command mode: differ/child status 0, 1, 2, 129 x consumer stays / quits; a pager that stops reading but stays "
+                "alive, with output above and below the pipe-buffer size; the same path given twice and a differ option that is rejected); each is forced "
                 "on the real binary (LD_PRELOAD write shim, stub pagers and stub git) and judged by TLC against Pager",
         "states": mc.distinct, "transitions": mc.generated, "traces_validated_against_impl": len(events),
         "samples": [e["sc"] for e in events[:3]],
